@@ -31,7 +31,25 @@ def check(run):
     run.check(len(cs) == 1, r, li.short, 'single call of the bound callable', 'found %d' % len(cs), L)
     for c in cs:
         at = guard_atoms(c)
-        run.check(at in ([('==', "'event sent'", evp + '.name')], [('==', evp + '.name', "'event sent'")]), r, li.short, "forward iff event.name == 'event sent'",
+        good_at = at in ([('==', "'event sent'", evp + '.name')], [('==', evp + '.name', "'event sent'")])
+        if not good_at:
+            # optional filters that are off unless asked for (a field that is None for every listener built the documented way): the condition is judged with
+            # `self.<field> is None` true
+            from .common import optional_none_fields
+            opt = optional_none_fields(prog, prog.cls('InternalEventListener'))
+
+            def classify_f(op, l, r_, e):
+                if op == '==' and {l, r_} == {"'event sent'", evp + '.name'}:
+                    return 'SENT'
+                if op == 'is' and r_ == 'None' and l.startswith('self.') and l[5:] in opt:
+                    return 'OFF'
+                return None
+            ba = q.BoolAbs(classify_f)
+            vs, sat = ba.table([(g[0], g[1], g[2]) for g in guards(c)])
+            if 'SENT' in vs and 'OFF' in vs:
+                bad = [b for b in q.table_equals(vs, sat, lambda v: v.get('SENT', False)) if b[0].get('OFF')]
+                good_at = not bad
+        run.check(good_at, r, li.short, "forward iff event.name == 'event sent'",
                   'forwarding condition is %s' % at, c)
         run.check(q.enclosing(c, (ast.For, ast.While)) is None, r, li.short, 'forwarded once', 'forwarding sits in a loop', c)
         a = c.args[0] if len(c.args) == 1 and not c.keywords else None
@@ -58,8 +76,14 @@ def check(run):
     seen = set()
     for c in mk:
         a0 = c.args[0] if c.args else None
-        for v, at_ in q.cases(B, a0) if a0 is not None else []:
+        from .common import optional_feature_on
+        cases_ = list(q.cases(B, a0)) if a0 is not None else []
+        if cases_ and all(optional_feature_on(at_ + guard_atoms(c), B) for v, at_ in cases_) and isinstance(strip_cast(a0), ast.Name) and strip_cast(a0).id == p:
+            cases_.append((a0, []))       # the parameter is re-bound only when the option is on: otherwise it is the argument itself
+        for v, at_ in cases_:
             at = at_ + guard_atoms(c)
+            if optional_feature_on(at, B):
+                continue      # what an opt-in keyword parameter adds (a filter around the target) is outside the documented binding
             txt = q.unparse(v)
             if ('truthy', 'isinstance(%s, Interpreter)' % p, '') in at:
                 seen.add('interp')
